@@ -252,7 +252,8 @@ class Resolver:
                             if t is not None:
                                 out.append(t)
                 elif bt == DATA:
-                    out.append(DATA)
+                    t = self.table_type(expr.attr, func)
+                    out.append(t if t is not None else DATA)
             if not out and not base_types:
                 t = self.table_type(expr.attr, func)
                 if t is not None:
